@@ -13,6 +13,7 @@ import (
 	_ "verif/harness/c09"
 	_ "verif/harness/c10"
 	_ "verif/harness/c11"
+	_ "verif/harness/c12"
 	_ "verif/harness/c13"
 	_ "verif/harness/c16"
 	_ "verif/harness/c17"
